@@ -1984,6 +1984,27 @@ func (mgr *Manager) invalidateTagsAfterConverterReset() {
 	mgr.startTaggingJobIfNeeded()
 }
 
+// a stream got converter output outside of a converter job (a view converted it on demand).
+func (mgr *Manager) invalidateTagsAfterConversion(streamID uint64) {
+	if !mgr.allStreams.IsSet(uint(streamID)) {
+		return
+	}
+	converted := bitmask.LongBitmask{}
+	converted.Set(uint(streamID))
+	for _, tag := range mgr.tags {
+		if tag.features.MainFeatures&query.FeatureFilterData == 0 && tag.features.SubQueryFeatures&query.FeatureFilterData == 0 {
+			continue
+		}
+		// the mask is shared with views and a running tagging job, don't modify it in place
+		tag.Uncertain = tag.Uncertain.Copy()
+		tag.Uncertain.Or(converted)
+	}
+	mgr.updatedStreamsDuringTaggingJob = mgr.updatedStreamsDuringTaggingJob.Copy()
+	mgr.updatedStreamsDuringTaggingJob.Or(converted)
+	mgr.inheritTagUncertainty()
+	mgr.startTaggingJobIfNeeded()
+}
+
 func (mgr *Manager) attachConverterToTag(tag *tag, tagName string, converter *converters.CachedConverter) error {
 	// check if converter already exists
 	if slices.Contains(tag.converters, converter) {
@@ -2699,9 +2720,12 @@ func (c StreamContext) Data(converterName string) ([]index.Data, error) {
 	data, _, _, wasCached, err := converter.Data(c.Stream(), true)
 	// only send event if the data wasn't cached before
 	if err == nil && !wasCached {
+		streamID := c.Stream().ID()
 		c.v.mgr.jobs <- func() {
 			converter, ok := c.v.mgr.converters[converterName]
 			if ok {
+				// tags using a data: filter could match on the converted data now.
+				c.v.mgr.invalidateTagsAfterConversion(streamID)
 				c.v.mgr.event(Event{
 					Type:      "converterCompleted",
 					Converter: converter.Statistics(),
